@@ -5,6 +5,7 @@ import (
 	"fmt"
 	"io"
 	"strconv"
+	"unicode/utf8"
 )
 
 const encodeHex = "0123456789ABCDEF"
@@ -20,6 +21,15 @@ func writeQuotedString(w io.Writer, s string) {
 	io.WriteString(w, `"`)
 
 	for i, c := range s {
+		if c == utf8.RuneError {
+			if _, width := utf8.DecodeRuneInString(s[i:]); width == 1 {
+				// not well-formed UTF-8: one U+FFFD per offending byte
+				io.WriteString(w, s[start:i])
+				io.WriteString(w, `\ufffd`)
+				start = i + 1
+			}
+			continue
+		}
 		if c < 0x20 || c == '\\' || c == '"' {
 			io.WriteString(w, s[start:i])
 
